@@ -127,6 +127,7 @@ pub fn repoint(block: &mut Block, parent: Hash, creator: &Actor) {
     reseal(block, creator, false);
 }
 
+#[derive(Clone, Copy)]
 pub struct Scenario {
     pub trunk: usize,
     pub competitor: usize,
@@ -134,6 +135,9 @@ pub struct Scenario {
     /// 1-based position of the offending block in the candidate chain
     pub bad_pos: usize,
     pub kind: Kind,
+    /// the node also holds a branch off the fork point that is one block longer than its chain
+    /// but lighter (huge gaps), so it is indexed and not adopted: a sibling at tip + 1
+    pub lighter_side: bool,
 }
 
 impl Scenario {
@@ -147,7 +151,7 @@ impl Scenario {
         } else {
             "middle"
         };
-        format!("trunk={} competitor={} candidate={} bad={}({}) kind={:?}", self.trunk, self.competitor, self.candidate, self.bad_pos, pos, self.kind)
+        format!("trunk={} competitor={} candidate={} bad={}({}) kind={:?}{}", self.trunk, self.competitor, self.candidate, self.bad_pos, pos, self.kind, if self.lighter_side { " lighter-side-branch" } else { "" })
     }
     pub fn pos_class(&self) -> &'static str {
         if self.candidate == 1 {
@@ -220,6 +224,33 @@ pub async fn run_scenario(sc: &Scenario, params: &Params, rng: &mut Rng, rep: &m
         assert_eq!(r, Some(Added::Ok(true)), "honest prefix must be accepted");
     }
     let old_tip = *competitor.last().unwrap_or(&fork);
+    let mut side_bytes: Vec<Vec<u8>> = vec![];
+    if sc.lighter_side {
+        let mut cur = fork;
+        for j in 0..=sc.competitor {
+            let id = b.store.get(&cur).id + 1;
+            let txs = vec![build_tx(&b.actors[2], &[], &[], b.store.get(&cur).ts + 4 + j as u64, b"side")];
+            let spec = BlockSpec { gap: 4_000 * b.params.heartbeat, txs, with_gt: id % 2 == 0, gt_miner: 2 };
+            match b.extend(rng, &cur, &spec).await {
+                Ok(h) => {
+                    cur = h;
+                    side_bytes.push(b.store.get(&h).bytes.clone());
+                }
+                Err(_) => {
+                    rep.count("cells_side_branch_not_built");
+                    return;
+                }
+            }
+        }
+        for bytes in &side_bytes {
+            let _ = node.add_bytes(bytes).await;
+        }
+        if node.tip().await.1 != old_tip {
+            rep.count("cells_side_branch_adopted");
+            return;
+        }
+        rep.count("cells_with_a_longer_lighter_side_branch_held");
+    }
     if with_pool {
         // pending transactions: one conflicting with the candidate chain's spends, one unrelated
         let mut exclude = vec![];
@@ -256,7 +287,7 @@ pub async fn run_scenario(sc: &Scenario, params: &Params, rng: &mut Rng, rep: &m
                 "kind": "fork-fault",
                 "scenario": sc.describe(),
                 "params": params.describe(),
-                "prefix_hex": std::iter::once(&b.genesis).chain(trunk.iter()).chain(competitor.iter()).map(|h| hex::encode(&b.store.get(h).bytes)).collect::<Vec<_>>(),
+                "prefix_hex": std::iter::once(&b.genesis).chain(trunk.iter()).chain(competitor.iter()).map(|h| hex::encode(&b.store.get(h).bytes)).chain(side_bytes.iter().map(hex::encode)).collect::<Vec<_>>(),
                 "candidate_hex": cand_bytes.iter().map(hex::encode).collect::<Vec<_>>(),
                 "failed_at_candidate_block": i + 1,
             })
@@ -390,8 +421,12 @@ pub async fn run(ctx: &Ctx, rep: &mut Report) {
                             if !ctx.mine(work) {
                                 continue;
                             }
-                            let sc = Scenario { trunk, competitor, candidate, bad_pos, kind };
+                            let sc = Scenario { trunk, competitor, candidate, bad_pos, kind, lighter_side: false };
                             run_scenario(&sc, &params, &mut rng, rep, pool).await;
+                            if competitor >= 1 && candidate > competitor {
+                                let sc = Scenario { lighter_side: true, ..sc };
+                                run_scenario(&sc, &params, &mut rng, rep, pool).await;
+                            }
                         }
                     }
                 }
